@@ -94,6 +94,10 @@ pub struct InvSpec {
     /// route hint whose last hop is the local node
     #[serde(default)]
     pub hint: bool,
+    /// explicit hops of the route hint, first to last: 'L' = the local node, 'O' = another node
+    /// ("" = use `hint`); e.g. "OL" = local node last, "LO" = local node first
+    #[serde(default)]
+    pub hops: String,
     /// payee key index (signer)
     #[serde(default = "one")]
     pub payee: u8,
@@ -125,8 +129,9 @@ pub fn invoice_bytes(spec: &InvSpec) -> Vec<u8> {
     if spec.amt != 0 {
         b = b.amount_milli_satoshis(spec.amt);
     }
-    if spec.hint {
-        b = b.private_route(RouteHint(vec![RouteHintHop {
+    let hops: String = if !spec.hops.is_empty() { spec.hops.clone() } else if spec.hint { String::from("L") } else { String::new() };
+    if !hops.is_empty() {
+        let hop = |c: char, k: u64| RouteHintHop {
             cltv_expiry_delta: 80,
             fees: RoutingFees {
                 base_msat: 1000,
@@ -134,9 +139,10 @@ pub fn invoice_bytes(spec: &InvSpec) -> Vec<u8> {
             },
             htlc_maximum_msat: None,
             htlc_minimum_msat: None,
-            short_channel_id: 0,
-            src_node_id: local_pubkey(),
-        }]));
+            short_channel_id: k,
+            src_node_id: if c == 'L' { local_pubkey() } else { payee_pub(3) },
+        };
+        b = b.private_route(RouteHint(hops.chars().enumerate().map(|(k, c)| hop(c, k as u64)).collect()));
     }
     let signer = payee_key(spec.payee);
     let s = match spec.form.as_str() {
